@@ -117,7 +117,22 @@ def build():
                trusted=True, trusted_reason="per-field change tracking; covered by the bounded reference comparison in rt.c09 (its dict-of-lists bookkeeping is not yet under a discharged contract)",
                may_raise=["Exception"], ensures=["result == tc_of(self, node)"]))
 
+    node_replace = z3.Function("astnode_replace", REF.z3(), CHG.z3(), REF.z3())   # ASTNode.replace: unregisters the original (C03) -- not what a transformer may do to its input
+
+    def attr_nr(m, obj, name):
+        if isinstance(obj, VU) and obj.sort == REF and name == "replace":
+            return VBound(obj, "replace")
+        return None
+
+    world.attr_hooks.insert(0, attr_nr)
+
     def call2(m, func, args, kwargs, node):
+        if isinstance(func, VBound) and isinstance(func.recv, VU) and func.recv.sort == REF and func.name == "replace":
+            from pyvc.symex import RaiseSig
+            from pyvc.values import VExc, fresh_name
+            if m.ctx.branch(z3.Bool(fresh_name("construction_raises"))):
+                raise RaiseSig(VExc("Exception"))
+            return REF.wrap(node_replace(func.recv.term, CHG.coerce(kwargs["**"]).term))
         if isinstance(func, VPy) and func.obj == ("builtin", "replace") and isinstance(args[0], VU) and args[0].sort == REF:
             from pyvc.symex import RaiseSig
             from pyvc.values import VExc, fresh_name
